@@ -69,6 +69,7 @@ ISO_META = {
     "I7": {"vkey": "I7"},
 }
 MC_ISOS = ["I1", "I2", "I3"]
+EXTRA_COLUMNS = {}     # isotherm key -> names of additional float data columns
 
 
 def universe_json(isos=None):
@@ -125,6 +126,8 @@ def make_isotherm(key):
             "loading": [1.0, 2.0, 3.0 + 0.125 * n, 2.5],
             "enthalpy": [5.5, 4.5, 3.5, 3.75],
         })
+        for j, c in enumerate(EXTRA_COLUMNS.get(key, [])):
+            df[c] = [0.5 + j, 1.5 + j, 2.5 + j, 2.25 + j]
         return pygaps.PointIsotherm(isotherm_data=df, pressure_key="pressure", loading_key="loading", **common)
     if kind == "model":
         md = {"name": "Langmuir", "parameters": {"K": 2.5, "n_m": 3.25}, "pressure_range": [0.1, 1.0],
@@ -178,11 +181,22 @@ def type_name(iso):
 # session
 
 
+def db_scratch(base, name):
+    """Directory for the database files: memory-backed when possible (a commit fsyncs; on disk that is
+    ~10 ms per call and dominates a replay of 40 000 calls)."""
+    shm = "/dev/shm"
+    if os.environ.get("VERIF_DB_ON_DISK") != "1" and os.path.isdir(shm) and os.access(shm, os.W_OK):
+        import tempfile
+        return tempfile.mkdtemp(prefix="verif-" + name + "-", dir=shm)
+    return os.path.join(base, name)
+
+
 class Session:
     """Scratch directory with a db_create template; fresh files + fresh registries per history."""
 
-    def __init__(self, scratch):
+    def __init__(self, scratch, deep=False):
         import pygaps
+        self.deep = deep
         import pygaps.parsing.sqlite as ps
         from pygaps.utilities.sqlite_db_creator import db_create
         self.pygaps = pygaps
@@ -229,6 +243,11 @@ class Session:
         self.isos = {k: make_isotherm(k) for k in ISOS}
         self._cache = {}
 
+    def new_session(self):
+        """The process ends, a new one starts: registries as after import, isotherm objects rebuilt by the user."""
+        self.reset_registries()
+        self.isos = {k: make_isotherm(k) for k in ISOS}
+
     def registry(self):
         ml, al = self.pygaps.MATERIAL_LIST, self.pygaps.ADSORBATE_LIST
         return {
@@ -243,7 +262,7 @@ class Session:
         c = self._cache.get(d)
         if c and c[0] == h:
             return c[1]
-        f = project(p, self)
+        f = project(p, self, deep=self.deep)
         self._cache[d] = (_file_digest(p), f)    # reading may have recovered a hot journal
         return f
 
@@ -285,7 +304,8 @@ def _h(x):
     return hashlib.sha1(repr(x).encode()).hexdigest()[:8]
 
 
-def project(path, sess):
+def project(path, sess, deep=False):
+    """deep=True additionally runs PRAGMA integrity_check (C09)."""
     con = real_sqlite3.connect(path)
     try:
         t = {name: con.execute(f'SELECT * FROM "{name}" ORDER BY rowid').fetchall() for name in TABLES}
@@ -294,7 +314,7 @@ def project(path, sess):
         except real_sqlite3.OperationalError:
             ipt_rows = None
         fk = con.execute("PRAGMA foreign_key_check").fetchall()
-        ic = con.execute("PRAGMA integrity_check").fetchall()
+        ic = con.execute("PRAGMA integrity_check").fetchall() if deep else [("ok",)]
     finally:
         con.close()
     used = {name: set() for name in TABLES}
@@ -392,7 +412,7 @@ def project(path, sess):
     f["isos"] = isos
     # everything that does not belong to a tracked key
     rest = [(name, [r for r in t[name] if r not in used[name]] if used[name] else t[name]) for name in sorted(t)]
-    f["rest"] = "r:" + _h(rest) + (":fk%d" % len(fk) if fk else "") + ("" if ic == [("ok",)] else ":corrupt")
+    f["rest"] = "r:" + hashlib.sha1(json.dumps(rest, default=repr).encode()).hexdigest()[:8] + (":fk%d" % len(fk) if fk else "") + ("" if ic == [("ok",)] else ":corrupt")
     # row-level facts used by StoreTx (C09): nothing half-present
     ads_ids = {a[0] for a in t["adsorbates"]}
     mat_ids = {a[0] for a in t["materials"]}
@@ -435,7 +455,7 @@ SITE = {
     "ads_del": "adsorbate_delete_db", "mat_del": "material_delete_db", "apt_del": "adsorbate_property_type_delete_db",
     "mpt_del": "material_property_type_delete_db", "ity_del": "isotherm_type_delete_db", "iso_del": "isotherm_delete_db",
     "ads_from": "adsorbates_from_db", "mats_from": "materials_from_db", "apt_from": "adsorbate_property_types_from_db",
-    "mpt_from": "material_property_types_from_db", "ity_from": "isotherm_types_from_db", "iso_from": "isotherms_from_db",
+    "mpt_from": "material_property_types_from_db", "ity_from": "isotherm_types_from_db", "iso_from": "isotherms_from_db", "session": "(new session)",
 }
 
 
@@ -611,6 +631,8 @@ def execute(sess, o):
                     ret.setdefault("#unknown", "x:unknown")
             res["ret"] = ret
             res["extra"]["diffs"] = diffs
+        elif name == "session":
+            sess.new_session()
         else:
             raise MachineryError(f"unknown abstract operation {name}")
     except MachineryError:
@@ -648,9 +670,19 @@ class InjectedPythonError(RuntimeError):
     pass
 
 
-def make_proxy(log, plan_holder):
-    """Returns an object to be installed as pygaps.parsing.sqlite.sqlite3."""
+def make_proxy(log, plan_holder, exit_fn=None, probe=None):
+    """Returns an object to be installed as pygaps.parsing.sqlite.sqlite3.
+
+    exit_fn(code): how the process dies at a crash point (default os._exit);
+    probe(): small JSON value logged with every event (the driver logs the registry sizes)."""
     state = {"conn": 0}
+    die = exit_fn or os._exit
+    real_append = log.append
+
+    def record(entry):
+        if probe is not None:
+            entry["reg"] = probe()
+        real_append(entry)
 
     class Cur(real_sqlite3.Cursor):
         def execute(self, sql, *a):
@@ -661,20 +693,20 @@ def make_proxy(log, plan_holder):
             kind = _sql_kind(sql)
             hit = plan is not None and plan.fault_at == k
             if hit and plan.kind == "exit_before":
-                os._exit(17)
+                die(17)
             if hit and plan.kind in ("IntegrityError", "InterfaceError", "OperationalError"):
-                log.append({"e": "exec", "c": c._n, "k": k, "sql": kind, "fault": plan.kind})
+                record({"e": "exec", "c": c._n, "k": k, "sql": kind, "fault": plan.kind})
                 raise getattr(real_sqlite3, plan.kind)(f"injected {plan.kind} at statement {k}")
             try:
                 r = super().execute(sql, *a)
             except real_sqlite3.Error as e:
-                log.append({"e": "exec", "c": c._n, "k": k, "sql": kind, "fault": "real:" + type(e).__name__})
+                record({"e": "exec", "c": c._n, "k": k, "sql": kind, "fault": "real:" + type(e).__name__})
                 raise
-            log.append({"e": "exec", "c": c._n, "k": k, "sql": kind, "fault": ""})
+            record({"e": "exec", "c": c._n, "k": k, "sql": kind, "fault": ""})
             if hit and plan.kind == "exit_after":
-                os._exit(17)
+                die(17)
             if hit and plan.kind == "PythonError":
-                log.append({"e": "pyerr", "c": c._n, "k": k, "sql": "", "fault": "PythonError"})
+                record({"e": "pyerr", "c": c._n, "k": k, "sql": "", "fault": "PythonError"})
                 raise InjectedPythonError(f"injected python exception after statement {k}")
             return r
 
@@ -685,18 +717,18 @@ def make_proxy(log, plan_holder):
         def commit(self):
             plan = plan_holder[0]
             if plan is not None and plan.kind == "exit_before_commit":
-                os._exit(17)
-            log.append({"e": "commit", "c": self._n, "k": self._k, "sql": "", "fault": ""})
+                die(17)
+            record({"e": "commit", "c": self._n, "k": self._k, "sql": "", "fault": ""})
             super().commit()
             if plan is not None and plan.kind == "exit_after_commit":
-                os._exit(17)
+                die(17)
 
         def rollback(self):
-            log.append({"e": "rollback", "c": self._n, "k": self._k, "sql": "", "fault": ""})
+            record({"e": "rollback", "c": self._n, "k": self._k, "sql": "", "fault": ""})
             super().rollback()
 
         def close(self):
-            log.append({"e": "close", "c": self._n, "k": self._k, "sql": "", "fault": ""})
+            record({"e": "close", "c": self._n, "k": self._k, "sql": "", "fault": ""})
             super().close()
 
     class Proxy:
@@ -710,7 +742,7 @@ def make_proxy(log, plan_holder):
             conn = real_sqlite3.connect(path, *a, factory=Conn, **kw)
             conn._n = state["conn"]
             conn._k = 0
-            log.append({"e": "open", "c": conn._n, "k": 0, "sql": "", "fault": ""})
+            record({"e": "open", "c": conn._n, "k": 0, "sql": "", "fault": ""})
             return conn
 
     return Proxy()
